@@ -11,8 +11,11 @@ hand-written observers.  Here the closed forms of C05 for the status code, the f
 the logging decision are restated for the translated code — so a source change in the `match` / `if` ladder of
 these three functions (a dropped insertion into `rules_applied`, `unwrap_or` of the wrong default, `&&` → `||` in
 the request-time fallback, the two results swapped) breaks a proof, not only the correspondence.  Not covered by
-the translation: the unit-trace blocks (skipped when they have exactly the known shape), `filter_headers` and
-`create_filter_body` (loops over filter lists with `continue`: outside the subset).
+the translation: the unit-trace blocks (skipped when they have exactly the known shape).  Second part: `Action::merge`
+and the loop of `Action::from_routes_rule` (`genMerge`, `genFromRoutesRule`), with `action_eq_spec` restated.  Third part:
+the selection loops (with `continue`) of `filter_headers` and the whole of `create_filter_body`; NOT translated there: the
+tail of `filter_headers` (`FilterHeaderAction::new(..).filter(..)`, the `X-RedirectionIo-RuleIds` header; C13 / C05
+`filter_headers_end_to_end` cover it on the model).
 -/
 import RioModel.Props.C05
 import RioModel.Proofs.ActionGen
@@ -58,6 +61,74 @@ theorem log_closed_form_gen (R : List Rule) (q : Req) (draw : Rule → Nat) (all
     (genShouldLogRequest (fromRoutesRule R q draw) allowLog c).2.rulesApplied = (logAt C c).2.toList := by
   rw [genShouldLogRequest_eq]
   exact log_closed_form R q draw allowLog c
+
+/-! ### `Action::merge` and the loop of `Action::from_routes_rule`, regenerated (section `w4_translate_merge`) -/
+
+/-- the translated `merge` (on structures generated from the Rust struct definitions) is the modelled one -/
+theorem gen_merge_eq_model (self other : Action) : genMerge self other = self.merge other :=
+  genMerge_eq self other
+
+/-- the translated `from_routes_rule` — `routes.sort()` as the model's sort, the translated loop with its early
+`return` on `stop`, the translated `merge` — is the modelled one -/
+theorem gen_from_routes_rule_eq_model (R : List Rule) (q : Req) (draw : Rule → Nat) :
+    Rio.Consts.genFromRoutesRule (frr q draw) genMerge Action.empty sortRules R = fromRoutesRule R q draw :=
+  genFromRoutesRule_eq R q draw
+
+/-- **`action_eq_spec` for the regenerated code**: what the translated loop and `merge` compute from the matched
+rules is the field-by-field specification over the contributing rules (effective rules, through the first `stop`,
+from the last `reset`; status / log primary and fallback; filters, ids and traces in application order). -/
+theorem action_eq_spec_gen (R : List Rule) (q : Req) (draw : Rule → Nat) :
+    Rio.Consts.genFromRoutesRule (frr q draw) genMerge Action.empty sortRules R =
+      Spec.action q (contributing q draw (sortRules R)) := by
+  rw [gen_from_routes_rule_eq_model]
+  exact action_eq_spec R q draw
+
+/-- … and every observation on it is the specification's (`observations_mixed_codes` for the regenerated loop). -/
+theorem observations_gen (R : List Rule) (q : Req) (draw : Rule → Nat) (allowLog : Bool) (ops : List (Op × Nat)) :
+    runOpsC allowLog (Rio.Consts.genFromRoutesRule (frr q draw) genMerge Action.empty sortRules R) ops =
+      Spec.observeC q (contributing q draw (sortRules R)) allowLog [] ops := by
+  rw [gen_from_routes_rule_eq_model]
+  exact observations_mixed_codes R q draw allowLog ops
+
+/-! ### the selection loops of `filter_headers` / `create_filter_body`, regenerated (section `w4_translate_select`) -/
+
+/-- the translated loops are the modelled observers, on every action -/
+theorem gen_selection_eq_model {κ : Type} (newBody : List BodyFilter → κ) (isEmptyBody : κ → Bool)
+    (a : Action) (c : Nat) (add : Bool) :
+    Rio.Consts.genActionSelectHeaderFilters lhsInsert c (a.ruleTraces.map toGenTrace) (a.headerFilters.map toGenHF)
+        a.rulesApplied = ((a.filterHeaders c add).filters, (a.filterHeaders c add).action.rulesApplied) ∧
+    Rio.Consts.genActionCreateFilterBody lhsInsert c newBody isEmptyBody (a.bodyFilters.map toGenBF) a.rulesApplied =
+      ((if isEmptyBody (newBody (a.createFilterBody c).1) then none else some (newBody (a.createFilterBody c).1)),
+       (a.createFilterBody c).2.rulesApplied) :=
+  ⟨genSelectHeaderFilters_eq a c add, genCreateFilterBody_eq newBody isEmptyBody a c⟩
+
+/-- **Header-filter selection, closed form, for the regenerated loops**: on the computed action, for response code
+`c`, the filters handed to `FilterHeaderAction::new` are the header filters of the contributing rules admitting `c`,
+in priority order, and `rules_applied` receives the admitted rules (traces first, then once per selected filter). -/
+theorem header_selection_closed_form_gen (R : List Rule) (q : Req) (draw : Rule → Nat) (c : Nat) :
+    let C := contributing q draw (sortRules R)
+    let a := fromRoutesRule R q draw
+    Rio.Consts.genActionSelectHeaderFilters lhsInsert c (a.ruleTraces.map toGenTrace) (a.headerFilters.map toGenHF)
+        a.rulesApplied = (headerFiltersAt q C c, (insertedBy q C c .headers).foldl lhsInsert []) := by
+  intro C a
+  rw [genSelectHeaderFilters_eq a c true]
+  have e : a = withApplied (Spec.action q C) [] := action_eq_spec R q draw
+  rw [e, filterHeaders_spec]
+  rfl
+
+/-- **Body-filter selection, closed form, for the regenerated `create_filter_body`.** -/
+theorem body_selection_closed_form_gen {κ : Type} (newBody : List BodyFilter → κ) (isEmptyBody : κ → Bool)
+    (R : List Rule) (q : Req) (draw : Rule → Nat) (c : Nat) :
+    let C := contributing q draw (sortRules R)
+    let a := fromRoutesRule R q draw
+    Rio.Consts.genActionCreateFilterBody lhsInsert c newBody isEmptyBody (a.bodyFilters.map toGenBF) a.rulesApplied =
+      ((if isEmptyBody (newBody (bodyFiltersAt C c)) then none else some (newBody (bodyFiltersAt C c))),
+       (insertedBy q C c .body).foldl lhsInsert []) := by
+  intro C a
+  rw [genCreateFilterBody_eq newBody isEmptyBody a c]
+  have e : a = withApplied (Spec.action q C) [] := action_eq_spec R q draw
+  rw [e, createFilterBody_spec]
+  rfl
 
 /-! ### Non-vacuity: the translated code run on a concrete action -/
 
